@@ -185,7 +185,7 @@ def gen_cases(cx):
             add(c["yang"], [(p, v) for p, v in c["items"]], c["meta"], wds=c.get("wds"))
 
     # 1. random schemas / trees under every with-defaults mode
-    for _ in range(cx.n(120, 1000)):
+    for _ in range(cx.n(200, 1000)):
         mod = ident(rng, 3, 8).replace("-", "x")
         g = Gen(rng, mod, rng.choice([1, 2, 3, 4]), rng.choice([2, 3, 5]))
         tops = [g.node(n, 0) for n in g.names(rng.randrange(1, 5))]
@@ -213,7 +213,7 @@ def gen_cases(cx):
     #    prefix, the next node header and the closing records is hit by a sweep of consecutive sizes)
     sweep = []
     for k in (1, 2, 3):
-        ds = range(-40, 41) if cx.tier == "thorough" else sorted(rng.sample(range(-40, 41), 12))
+        ds = range(-40, 41) if cx.tier == "thorough" else sorted(rng.sample(range(-40, 41), 20))
         for d in ds:
             sweep.append(k * MAX + d)
     for size in sweep:
